@@ -118,7 +118,8 @@ func (c *storeComp) sensitive(t0, t1, window int64) bool {
 	return false
 }
 
-var storeIDs = []string{"a", "b", "c", "d", "e", ""}
+// (ids are opaque strings to the store: other spellings of "the same" hex id are different nodes)
+var storeIDs = []string{"a", "b", "c", "d", "e", "", "AB", "0xab", "ab"}
 var storeAccts = []string{"X", "Y", "Z", ""}
 var storeKinds = []string{"geth", "parity", ""}
 var amounts = []string{"0", "1", "-1", "7", "1000", "-1000", "18446744073709551619", "-18446744073709551619",
@@ -135,6 +136,8 @@ func (c *storeComp) Gen(r *rand.Rand, idx int, emit func(string)) {
 	ids := storeIDs
 	if r.Intn(3) > 0 {
 		ids = storeIDs[:3+r.Intn(3)]
+	} else if r.Intn(2) == 0 {
+		ids = []string{"a", "AB", "0xab", "ab", "b"}
 	}
 	id := func() string { return Tok(pick(r, ids)) }
 	acct := func() string { return Tok(pick(r, storeAccts[:2+r.Intn(3)])) }
